@@ -331,6 +331,13 @@ def check_merge(ctx, sem, a, b, tag):
     ctx.event("note:explicit-condition-not-implying-block-condition")
   ctx.check(skey(a) == before_a and skey(b) == before_b,
             "merge-mutates-input", "%r / %r" % (a, b), case)
+  _, V, _ = _mods()
+  m.store_local("zz", V.Variable.from_value(99))
+  m.store_local("x", V.Variable.from_value(98))
+  ctx.check(skey(a) == before_a and skey(b) == before_b and
+            den_eq(den(sem, a), da) and den_eq(den(sem, b), db),
+            "merge-result-aliases-input",
+            "store_local on %r.merge_into(%r) changed an input" % (a, b), case)
 
 
 def check_with_condition(ctx, sem, st, c, tag):
@@ -350,6 +357,15 @@ def check_with_condition(ctx, sem, st, c, tag):
             "with_condition-condition-not-and",
             "%r.with_condition(%r) -> %r" % (st, c, r), case)
   ctx.check(skey(st) == k0, "with_condition-mutates-input", repr(st), case)
+  # the result must be an independent state: storing into it later (as the
+  # frame does) must not change the state it was derived from
+  _, V, _ = _mods()
+  r.store_local("zz", V.Variable.from_value(99))
+  r.store_local("x", V.Variable.from_value(98))
+  ctx.check(skey(st) == k0 and den_eq(den(sem, st), d0),
+            "with_condition-result-aliases-input",
+            "%r.with_condition(%r): store_local on the result changed the "
+            "original" % (st, c), case)
   if not invariant_ok(sem, r):
     ctx.event("note:explicit-condition-not-implying-block-condition")
 
@@ -460,10 +476,22 @@ def make_machine(ctx):
       return (real, model)
 
     @rule(target=states, s=states, n=st.sampled_from(names),
-          v=st.sampled_from(values))
-    def store(self, s, n, v):
+          v=st.sampled_from(values), inplace=st.booleans())
+    def store(self, s, n, v, inplace):
       real, model = s
       self.log.append(["store", repr(real), n, v])
+      self._cmp(real, model, "store (state as last seen)")
+      if inplace:
+        # what the frame does: mutate the state in place.  If an earlier
+        # operation handed out an alias of another state, that other state's
+        # model is now out of date and the next comparison on it fails.
+        real.store_local(n, V.Variable.from_value(v))
+        model["den"] = {k: dict(vv) for k, vv in model["den"].items()}
+        model["den"][n] = {v: model["cond"]}
+        self._cmp(real, model, "store in place")
+        ctx.case(key=("c-store!", repr(skey(real)), n, v), nontrivial=False,
+                 classes=["c:store-in-place"])
+        return (real, model)
       r2 = real.merge_into(None)
       r2.store_local(n, V.Variable.from_value(v))
       d = {k: dict(vv) for k, vv in model["den"].items()}
@@ -496,6 +524,7 @@ def make_machine(ctx):
     def with_condition(self, s, c):
       real, model = s
       self.log.append(["with_condition", repr(real), repr(c)])
+      self._cmp(real, model, "with_condition (state as last seen)")
       r2 = real.with_condition(c)
       cm = sem.ev(c)
       m2 = {"den": den_restrict(model["den"], cm), "cond": model["cond"] & cm}
@@ -510,6 +539,8 @@ def make_machine(ctx):
       ra, ma = a
       rb, mb = b
       self.log.append(["merge", repr(ra), repr(rb)])
+      self._cmp(ra, ma, "merge (left as last seen)")
+      self._cmp(rb, mb, "merge (right as last seen)")
       r2 = ra.merge_into(rb)
       m2 = {"den": den_union(ma["den"], mb["den"]),
             "cond": ma["cond"] | mb["cond"]}
